@@ -51,6 +51,8 @@ func c02Run(f []string) string {
 	switch f[0] {
 	case "pipe":
 		return pipeRun(f)
+	case "filt", "vis":
+		return c02FilterRun(f)
 	case "ctx":
 		// ctx <line> <indices> <names> <name idx> <src> <linenum> <key>
 		line := UnHex(f[1])
@@ -93,13 +95,21 @@ func c02Run(f []string) string {
 		color.Enabled = true
 		line := string(UnHex(f[1]))
 		out := color.WrapIndices(line, parseInts(f[2]))
-		// strip exactly the group colours and resets the function inserts
-		stripped := out
-		for _, c := range color.GroupColors {
-			stripped = strings.ReplaceAll(stripped, string(c), "")
+		// property-level oracle on this side, for lines without an ESC byte of their own: deleting the
+		// table's codes gives the line back.  (For a line that carries escape sequences itself a textual
+		// search cannot tell them from inserted ones; there the model's segment-wise `strip` – proved equal
+		// to the line – is compared through the rendered bytes.)
+		if !strings.Contains(line, "\x1b") {
+			stripped := out
+			for _, c := range color.GroupColors {
+				stripped = strings.ReplaceAll(stripped, string(c), "")
+			}
+			stripped = strings.ReplaceAll(stripped, string(color.Reset), "")
+			if stripped != line {
+				return "ok " + HexS(out) + " stripped-differs"
+			}
 		}
-		stripped = strings.ReplaceAll(stripped, string(color.Reset), "")
-		return fmt.Sprintf("ok %s %s", HexS(out), HexS(stripped))
+		return "ok " + HexS(out)
 	case "regexpipe":
 		// regexpipe <n> <pattern> <inputs> <workers> <batch>
 		pat := string(UnHex(f[2]))
@@ -234,6 +244,8 @@ func c02Gen(r *Rand, tier string) []string {
 		}
 		out = append(out, fmt.Sprintf("wrap %s %s", Hex(line), g))
 	}
+	// default `rare filter` output through the real command, real matchers; color.StrLen
+	out = append(out, c02FilterGen(NewRand(r.U64()), tier)...)
 	// the whole pipeline with late consumption (shared with C01)
 	np := 60
 	if tier == "thorough" {
@@ -281,6 +293,7 @@ func c02Stats(cases []string) map[string]int {
 			st["ctx.key."+string(UnHex(f[7]))]++
 		}
 	}
+	c02FilterStats(cases, st)
 	return st
 }
 
